@@ -205,7 +205,9 @@ def _canon_cmp(op, a, b):
         za = to_rat(a).const_value()
         zb = to_rat(b).const_value()
         res = None
-        if zb is not None and zb == 0 and za is None:
+        if za is not None and zb is not None:
+            res = ("bool", za == zb)
+        elif zb is not None and zb == 0 and za is None:
             res = ("zero", _abs_norm(to_rat(a)))
         elif za is not None and za == 0 and zb is None:
             res = ("zero", _abs_norm(to_rat(b)))
@@ -241,6 +243,9 @@ def _canon_cmp(op, a, b):
     elif op == ">=":
         a, b, op = b, a, "<="
     if op == "<" and a[0] == "call" and a[1] in ABS_FUNCS and _is_small_const(b):
+        cz = to_rat(a[2][0]).const_value()
+        if cz is not None:
+            return ("bool", abs(cz) < to_rat(b).const_value())
         return ("zero", _abs_norm(to_rat(a[2][0])))
     if op == "<=" and b[0] == "call" and b[1] in ABS_FUNCS and _is_small_const(a):
         # c <= abs(x)  == not zero
@@ -360,6 +365,17 @@ class _Sat(set):
 
 def sat(guard):
     return _Sat(saturate(guard))
+
+
+def inconsistent(g):
+    for a, p in g:
+        if (a, not p) in g:
+            return True
+        if a == ("bool", False) and p:
+            return True
+        if a == ("bool", True) and not p:
+            return True
+    return False
 
 
 def _entails(guard, lit):
